@@ -289,3 +289,38 @@ Proof.
       do 5 (rewrite cstep_single; cbn [t_pc t_tn t_ret t_hooks t_fwd app]; rewrite ?E, ?Ed, ?Z.eqb_refl;
             cbn [t_pc t_tn t_ret t_hooks t_fwd app]); auto.
 Qed.
+
+(* ------------------------------------------------------------------ *)
+(* closed form: of the first L positions of a window, min(L, N) + (L - N) / M are kept *)
+Lemma count_true_snoc l b : count_true (l ++ [b]) = (count_true l + (if b then 1 else 0))%nat.
+Proof. unfold count_true. rewrite filter_app, app_length. destruct b; reflexivity. Qed.
+
+Lemma div_succ x M : 0 <= x -> 0 < M ->
+  (x + 1) / M = x / M + (if (x + 1) mod M =? 0 then 1 else 0).
+Proof.
+  intros Hx HM.
+  pose proof (Z.div_mod x M ltac:(lia)) as E1. pose proof (Z.mod_pos_bound x M HM) as B1.
+  pose proof (Z.div_mod (x + 1) M ltac:(lia)) as E2. pose proof (Z.mod_pos_bound (x + 1) M HM) as B2.
+  destruct ((x + 1) mod M =? 0) eqn:E.
+  - apply Z.eqb_eq in E. nia.
+  - apply Z.eqb_neq in E. nia.
+Qed.
+
+Theorem kept_count_thm N M (L : nat) : 0 <= N -> 0 <= M ->
+  Z.of_nat (count_true (map (keeps N M) (zseq 1 L))) =
+  Z.min (Z.of_nat L) N + (if M =? 0 then 0 else Z.max 0 (Z.of_nat L - N) / M).
+Proof.
+  intros HN HM. induction L as [|L IH].
+  - cbn [zseq map count_true filter length Z.of_nat]. destruct (M =? 0) eqn:E0; [lia|].
+    apply Z.eqb_neq in E0. rewrite Z.max_l by lia. rewrite Z.div_0_l; lia.
+  - rewrite zseq_snoc, map_app. cbn [map]. rewrite count_true_snoc, Nat2Z.inj_add, IH.
+    rewrite Nat2Z.inj_succ. set (l := Z.of_nat L) in *. assert (Hl : 0 <= l) by (unfold l; lia).
+    unfold keeps. destruct (1 + l <=? N) eqn:E1.
+    + apply Z.leb_le in E1. cbn [orb]. rewrite !Z.min_l by lia. rewrite !Z.max_l by lia.
+      destruct (M =? 0) eqn:E0; [lia|]. apply Z.eqb_neq in E0. rewrite Z.div_0_l by lia. lia.
+    + apply Z.leb_gt in E1. cbn [orb]. rewrite !Z.min_r by lia. rewrite !Z.max_r by lia.
+      destruct (M =? 0) eqn:E0; cbn [negb andb]; [lia|].
+      apply Z.eqb_neq in E0. replace (Z.succ l - N) with ((l - N) + 1) by lia.
+      replace (1 + l - N) with ((l - N) + 1) by lia.
+      rewrite (div_succ (l - N) M) by lia. destruct ((l - N + 1) mod M =? 0); lia.
+Qed.
